@@ -306,6 +306,14 @@ func visitInstr(fr *frame, instr ssa.Instruction) continuation {
 
 	case *ssa.Go:
 		fn, args := prepareCall(fr, &instr.Call)
+		// `go f(...)` where the harness replaced f (vrt.Replace): the stub runs right here, synchronously
+		// (a recording stub for worker loops; the interpreter state is not shared between real goroutines)
+		if sf, ok := fn.(*ssa.Function); ok && X != nil && X.replaced != nil {
+			if _, isRepl := X.replaced[sf]; isRepl {
+				call(fr.i, fr, instr.Pos(), fn, args)
+				break
+			}
+		}
 		atomic.AddInt32(&fr.i.goroutines, 1)
 		go func() {
 			call(fr.i, nil, instr.Pos(), fn, args)
